@@ -82,7 +82,7 @@ func modeEscapes(mode string, inherited bool) bool {
 
 func (in *interp) runTemplate(f *File, t *Template, data map[string]Value) {
 	in.depth++
-	if in.depth > 60 {
+	if in.depth > 400 {
 		unspecified("call depth bound exceeded")
 	}
 	sFile, sParams, sEnv, sEscape := in.file, in.params, in.env, in.escape
